@@ -96,41 +96,27 @@ theorem composite_eq_min (ids : List String) (msgs : List (String × Int)) (hne 
     rw [hcomp, hx]
     exact (Option.some.inj hs).symm
 
-theorem reportAll_append (s : Ups × Int) (a b : List (String × Int)) :
-    reportAll s (a ++ b) = reportAll (reportAll s a) b := by
-  induction a generalizing s with
-  | nil => rfl
-  | cons m a ih => obtain ⟨id, v⟩ := m; simp [reportAll, ih]
-
-theorem step_tracks (o : Op) (e : OpEv) :
-    ((o.step e).1.reg.ups, (o.step e).1.reg.wm) = reportAll (o.reg.ups, o.reg.wm) (wmsgs [e]) ∧
-    (o.step e).1.maxBatch = o.maxBatch ∧
-    ∀ r ∈ (o.step e).2, r.told = (reportAll (o.reg.ups, o.reg.wm) (wmsgs [e])).2 := by
-  cases e with
-  | keyed k ts =>
-    have h := (add_ok o (.keyed k ts)).1
-    simp only [Op.step, Op.keyed, wmsgs, reportAll]
-    exact ⟨by rw [h.ups, h.wm], h.maxBatch, h.told⟩
-  | wmark s v =>
-    simp only [Op.step, Op.watermark, wmsgs, reportAll]
-    have h := (opFireLoop_ok (o.reg.ups.report s v).2 (o.reg.store.db.length + 1)
-      { o with reg := { o.reg with ups := (o.reg.ups.report s v).1, wm := (o.reg.ups.report s v).2 } }).1
-    exact ⟨by rw [h.ups, h.wm], h.maxBatch, h.told⟩
-
-theorem wmsgs_append (a b : List OpEv) : wmsgs (a ++ b) = wmsgs a ++ wmsgs b := by
-  induction a with
-  | nil => rfl
-  | cons e a ih => cases e <;> simp [wmsgs, ih]
-
-theorem runState_tracks (evs : List OpEv) (o : Op) :
-    ((o.runState evs).reg.ups, (o.runState evs).reg.wm) = reportAll (o.reg.ups, o.reg.wm) (wmsgs evs) := by
-  induction evs generalizing o with
-  | nil => rfl
-  | cons e es ih =>
-    simp only [Op.runState]
-    rw [ih (o.step e).1, (step_tracks o e).1]
-    have : wmsgs (e :: es) = wmsgs [e] ++ wmsgs es := wmsgs_append [e] es
-    rw [this, reportAll_append]
+/-- the composite never decreases when a runner reports a watermark that is not below its previous report (for a
+runner's first report: not below the current composite — in particular not below the epoch it was counted as, if it was
+configured). With `wm_monotone` the operator's effective watermark is monotone whenever no runner reports below the epoch. -/
+theorem composite_monotone (u : Ups) (hwf : u.wf) (hne : u ≠ []) (sender : String) (v : Int)
+    (hprev : ∀ x, u.get? sender = some x → x ≤ v) (hfirst : u.get? sender = none → u.composite ≤ v) :
+    u.composite ≤ (u.report sender v).2 := by
+  have hwf' := Ups.wf_set u sender v hwf
+  obtain ⟨_, k, x, hmem, hx⟩ := Ups.composite_spec (u.set sender v) (Ups.set_ne_nil u sender v)
+  obtain ⟨hle, _⟩ := Ups.composite_spec u hne
+  show u.composite ≤ (u.set sender v).composite
+  rw [hx]
+  have hg := Ups.get?_some_of_mem _ hwf' k x hmem
+  rw [Ups.get?_set] at hg
+  by_cases hk : k = sender
+  · simp only [hk, if_true, Option.some.injEq] at hg
+    subst hg
+    cases hs : u.get? sender with
+    | none => exact hfirst hs
+    | some y => exact Int.le_trans (hle sender y (Ups.mem_of_get? u sender y hs)) (hprev y hs)
+  · simp only [hk, if_false] at hg
+    exact hle k x (Ups.mem_of_get? u k x hg)
 
 /-- every `ProcessEventBatchRequest` tells the handler the registry's composite watermark as of the watermark messages
 received so far (including the one being handled): with `composite_eq_min`, the minimum over the upstream runners.
@@ -170,5 +156,8 @@ example : runnerRun (Watermarker.new 5) [.events [10, 30, 20], .tick, .events [4
 example : (reportAll (Ups.init ["a", "b"], zeroTime) [("a", 10)]).2 = 0 ∧
     (reportAll (Ups.init ["a", "b"], zeroTime) [("a", 10), ("b", 6), ("a", 12)]).2 = 6 ∧
     lastOr [("a", 10), ("b", 6), ("a", 12)] "a" = 12 := by decide
+
+/-- a report above the previous one cannot lower the composite -/
+example : (Ups.init ["a", "b"]).composite ≤ ((Ups.init ["a", "b"]).report "a" 10).2 := by decide
 
 end Rxn.C11
